@@ -13,6 +13,12 @@ by corpus/C11/*.trace):
   * the clause "after Remove … stores no further change" of `removed_sticky` is FALSE
     → `push_after_remove_witness`; the proved part is `removed_sticky` (flag permanent, echoed in
     every later response, invisible to Attach by key).
+  * `cfg.detachWithoutOwnChange` selects the tree before (`false`) or with (`true`)
+    `hooks/fix-c11-deactivate-without-own-change.patch`: before it, a client attached to a document in which
+    it has no stored change at or below its checkpoint could not be deactivated (second half of
+    `deactivate_blocked_witness`, replayed by corpus/C11/srv-deactivate-change-not-found.trace); with it the
+    outcome of the server-side detach is that of its push alone (`clusterDetach_without_own_change`,
+    `deactivate_without_own_change`).
 -/
 import YorkieModel.Lemmas.ServerSpec
 namespace Yorkie.Props.C11
@@ -43,8 +49,8 @@ def presChange (c cs tag : Nat) : ChangeReq :=
 def opsChange (c cs : Nat) (lam : Int) (tag : Nat) : ChangeReq :=
   { clientSeq := cs, lamport := lam, vv := [(c, lam)], actor := c, hasOps := true, hasPresence := false, tag := tag }
 
-def pinned : Config := { detachGuardFirst := false, pushAfterRemoveDiscards := false }
-def fixed : Config := { detachGuardFirst := true, pushAfterRemoveDiscards := false }
+def pinned : Config := { detachGuardFirst := false, pushAfterRemoveDiscards := false, detachWithoutOwnChange := false }
+def fixed : Config := { detachGuardFirst := true, pushAfterRemoveDiscards := false, detachWithoutOwnChange := true }
 
 /-- A attaches, syncs, detaches; B is attached (corpus/C11/proto-detached-push.trace) -/
 def afterDetach (cfg : Config) : Server := run (Server.init cfg) [
@@ -663,7 +669,9 @@ theorem lifecycle_deactivate (s : Server) (c : ClientId) (order : List DocId) :
 a peer removed cannot be deactivated (`FindDocInfosByIDs` skips removed documents → count mismatch →
 internal error); (D2) a client attached to a document into which it never stored a change (here: a
 presenceless document strips its only, presence-only, change) cannot be deactivated
-(`FindLatestChangeInfoByActor` → change not found). -/
+(`FindLatestChangeInfoByActor` → change not found) – D2 on the tree BEFORE
+`hooks/fix-c11-deactivate-without-own-change.patch` (`pinned.detachWithoutOwnChange = false`); repaired:
+`clusterDetach_without_own_change`, `deactivate_without_own_change`. -/
 theorem deactivate_blocked_witness :
     (let s := run (Server.init pinned) [.activate, .activate,
         .attach 0 0 { cp := ⟨0, 0⟩, changes := [presChange 0 1 1], vv := [] } false false,
@@ -673,6 +681,52 @@ theorem deactivate_blocked_witness :
     (let s := run (Server.init pinned) [.activate,
         .attach 0 0 { cp := ⟨0, 0⟩, changes := [presChange 0 1 1], vv := [] } true false]   -- disablePresence
      clientSt s 0 = .activated ∧ (step s (.deactivate 0 [])).2.toOption = none) := by
+  decide
+
+/-- D2 repaired (`cfg.detachWithoutOwnChange = true`): the server-side detach no longer depends on whether the
+client has a stored change at or below its checkpoint – for every state its outcome is the outcome of pushing
+the presence-clear change. -/
+theorem clusterDetach_without_own_change (s : Server) (h : s.cfg.detachWithoutOwnChange = true)
+    (c : ClientId) (d : DocId) (info : Client) (doc : Doc)
+    (hc : s.findActiveClient c = .ok info) (hd : s.findDoc d = some doc) :
+    clusterDetach s c d =
+      ((pushPull s (mkFlight c d info (detachMode s c d (clusterPack c (info.checkpoint d))).1 true
+          (detachMode s c d (clusterPack c (info.checkpoint d))).2 false doc.disablePresence)).1,
+       (pushPull s (mkFlight c d info (detachMode s c d (clusterPack c (info.checkpoint d))).1 true
+          (detachMode s c d (clusterPack c (info.checkpoint d))).2 false doc.disablePresence)).2.map (fun _ => ())) := by
+  simp only [clusterDetach, h, hc, hd, Bool.not_true, Bool.false_and, Bool.false_eq_true, if_false]
+  generalize pushPull s _ = r
+  obtain ⟨s', x⟩ := r
+  cases x <;> rfl
+
+/-- … and on the three histories that blocked Deactivate before the repair it now succeeds, deactivates the
+client, leaves it no open document and no version-vector row: (1) a presenceless document (the only change
+of the client was stripped), (2) an attacher that pushed nothing at all, (3) a client whose only changes were
+stored by push-only syncs (they lie above its checkpoint). -/
+theorem deactivate_without_own_change :
+    (let s := run (Server.init fixed) [.activate,
+        .attach 0 0 { cp := ⟨0, 0⟩, changes := [presChange 0 1 1], vv := [] } true false]
+     let s' := (step s (.deactivate 0 [])).1
+     (step s (.deactivate 0 [])).2.toOption.isSome = true ∧ clientSt s' 0 = .deactivated ∧
+       docSt s' 0 0 = some .detached) ∧
+    (let s := run (Server.init fixed) [.activate, .activate,
+        .attach 0 0 { cp := ⟨0, 0⟩, changes := [presChange 0 1 1], vv := [] } false false,
+        .attach 1 0 { cp := ⟨0, 0⟩, changes := [], vv := [] } false false]
+     let s' := (step s (.deactivate 1 [])).1
+     (step s (.deactivate 1 [])).2.toOption.isSome = true ∧ clientSt s' 1 = .deactivated ∧
+       docSt s' 1 0 = some .detached ∧ (storedLog s' 0).length = 2) ∧
+    (let s := run (Server.init fixed) [.activate, .activate,
+        .attach 0 0 { cp := ⟨0, 0⟩, changes := [presChange 0 1 1], vv := [] } false false,
+        .attach 1 0 { cp := ⟨0, 0⟩, changes := [], vv := [] } false false,
+        .pushpull 1 0 { cp := ⟨1, 0⟩, changes := [opsChange 1 1 1 2], vv := [(1, 1)] } true false]
+     let s' := (step s (.deactivate 1 [])).1
+     (step s (.deactivate 1 [])).2.toOption.isSome = true ∧ clientSt s' 1 = .deactivated ∧
+       docSt s' 1 0 = some .detached ∧
+       (storedLog s' 0).map (fun r => (r.serverSeq, r.actor, r.clientSeq, r.lamport, r.hasOps)) =
+         [(1, 0, 1, 0, false), (2, 1, 1, 1, true), (3, 1, 2, 0, false)]) ∧
+    -- the same three histories on the tree before the repair: all blocked
+    (∀ h ∈ [[Request.activate, .attach 0 0 { cp := ⟨0, 0⟩, changes := [presChange 0 1 1], vv := [] } true false]],
+      (step (run (Server.init pinned) h) (.deactivate 0 [])).2.toOption = none) := by
   decide
 
 /-- C11 `lifecycle_refines_spec`: for every state and every request, the model's accept/reject
